@@ -62,7 +62,7 @@ Definition all_ghost : list ghost :=
   flat_map (fun a => flat_map (fun b => map (fun c => {| c_paid := a; c_failed := b; timeout_buried := c |}) all_bool) all_bool) all_bool.
 Definition local_labels : list label :=
   [LForward; LFulfil true; LFulfil false; LCommitFulfil true; LCommitFulfil false; LRaaFulfil true; LRaaFulfil false;
-   LFailMsg; LCommitFail; LRaaFail; LCompleteU; LCompleteClaimed; LCompleteForget; LDiscD; LCloseD;
+   LFailMsg; LCommitFail; LRaaFail; LCompleteU; LCompleteClaimed; LCompleteForget; LDupBlocker; LFreeDup; LDiscD; LCloseD;
    LChainPreimage true; LChainPreimage false; LChainTimeout].
 
 Definition is_local (l : label) : bool := match l with LPersistMgr | LCrash _ _ _ => false | _ => true end.
@@ -70,7 +70,7 @@ Definition is_local (l : label) : bool := match l with LPersistMgr | LCrash _ _ 
 Lemma all_ghost_complete gh : In gh all_ghost.
 Proof. destruct gh as [[] [] []]; cbn; tauto. Qed.
 Lemma local_labels_complete l : is_local l = true -> In l local_labels.
-Proof. destruct l as [ |[]|[]|[]| | | | | | | | |[]| | |lu lc lf]; cbn; intros; try discriminate; tauto. Qed.
+Proof. destruct l as [ |[]|[]|[]| | | | | | | | | | |[]| | |lu lc lf]; cbn; intros; try discriminate; tauto. Qed.
 
 (** one local step preserves everything, for this memory and every ghost / label *)
 Definition local_ok (x : mem) : bool :=
